@@ -15,6 +15,12 @@ theorem C13_same_package (ov : List (String × String)) (t : String) :
 every run): `int` and `uint` without a size are in it like the sized ones -/
 theorem C13_builtin_table : Generated.builtinTypes = builtinTypeNames := by decide
 
+/-- **the qualification rule of the source is the one the model transcribes** (table T6, regenerated on every run): a type that
+already carries a qualifier – ANY qualifier, also one that equals the last element of the struct package's path –, an empty
+package name or a predeclared type is left alone; everything else is qualified with the struct package. -/
+theorem C13_prepend_src : Generated.srcPrependPackageNameIfMissing =
+    "{ typ, mod := i.typAndMod(t) if strings.Contains(i.typBeforeBracket(typ), \".\") || pkg == \"\" || i.isBuiltinType(typ) { return t } return i.appendQual(pkg+\".\"+typ, mod) }" := rfl
+
 /-- builtin types are never qualified -/
 theorem C13_builtin (ov : List (String × String)) (t pkg : String) (h : isBuiltinType (typAndMod t).1 = true) :
     prependPackageNameIfMissing ov t pkg = t := by
